@@ -257,10 +257,10 @@ func (e *checkEnv) runCheck(t testing.TB, q *ketoapi.RelationTuple, depth int, p
 // return within milliseconds.
 const slowStorage = 8 * time.Second
 
-var slowCancels int // cancellations that took the slow path; after three the point is made and each further one would cost seconds
+var slowCancels int // cancellations that took the slow path; after the first the point is made and each further one would cost seconds per storage call
 
 func (e *checkEnv) transportCancel(t testing.TB, transport string, q *ketoapi.RelationTuple, depth, k int) (ms int, st string) {
-	if slowCancels >= 3 {
+	if slowCancels >= 1 {
 		return 0, "skipped"
 	}
 	defer func() {
